@@ -398,6 +398,101 @@ fn search_signtype(rng: &mut Rng) -> Option<Cex> {
     None
 }
 
+
+// ------------------------------------------------------------------ end to end (C08, bounded native exploration)
+fn random_message(rng: &mut Rng, own: u16) -> Message<'static> {
+    let addr = if rng.below(4) == 0 { own.wrapping_add(1) } else { own };
+    let a = Address(addr);
+    let ops = [Operation::ReceiveConfig, Operation::ReceivePixels, Operation::ShowLoadedPage, Operation::LoadNextPage, Operation::StartReset, Operation::FinishReset];
+    match rng.below(12) {
+        0 => Message::Hello(a),
+        1 => Message::QueryState(a),
+        2 | 3 => Message::RequestOperation(a, ops[rng.below(6) as usize]),
+        4 => Message::PixelsComplete(a),
+        5 => Message::Goodbye(a),
+        6 => Message::DataChunksSent(ChunkCount(rng.below(5) as u16)),
+        7 => {
+            let t = ALL_TYPES[rng.below(11) as usize];
+            Message::SendData(Offset(0), Data::try_new(t.to_bytes().to_vec()).unwrap())
+        }
+        8 => {
+            let mut blk = [0u8; 16];
+            for x in blk.iter_mut() { *x = rng.next() as u8; }
+            blk[0] = if rng.below(2) == 0 { 4 } else { 8 };
+            Message::SendData(Offset(0), Data::try_new(blk.to_vec()).unwrap())
+        }
+        _ => {
+            let n = [0usize, 1, 15, 16, 16, 16, 17, 255][rng.below(8) as usize];
+            let off = if rng.below(3) == 0 { 0 } else { (rng.below(8) * 16) as u16 };
+            Message::SendData(Offset(off), Data::try_new((0..n).map(|_| rng.next() as u8).collect::<Vec<u8>>()).unwrap())
+        }
+    }
+}
+
+fn search_e2e(rng: &mut Rng, walks: usize) -> Option<Cex> {
+    use flipdot::Sign;
+    use flipdot_testing::{VirtualSign, VirtualSignBus};
+    use std::cell::RefCell;
+    use std::rc::Rc;
+    let mut seen = std::collections::HashSet::new();
+    for w in 0..walks {
+        let own = [1u16, 3, 0x7F, 0x100, 0xFFFF][w % 5];
+        let t = ALL_TYPES[(w / 5) % 11];
+        let style = if (w / 55) % 2 == 0 { PageFlipStyle::Manual } else { PageFlipStyle::Automatic };
+        let mut script: Vec<Message<'static>> = vec![];
+        let len = rng.below(40) as usize;
+        for _ in 0..len { script.push(random_message(rng, own)); }
+        let n_pages = rng.below(3) as usize;
+        let input = format!("walk {} own {:04x} type {:?} style {:?} prior {} msgs pages {}", w, own, t, style, len, n_pages);
+        let r = catch_unwind(AssertUnwindSafe(|| -> Result<String, String> {
+            let bus = Rc::new(RefCell::new(VirtualSignBus::new(vec![VirtualSign::new(Address(own), style)])));
+            for m in &script { let _ = bus.borrow_mut().sign(0); use flipdot_core::SignBus; bus.borrow_mut().process_message(m.clone()).map_err(|e| format!("bus error {}", e))?; }
+            let sig = { let b = bus.borrow(); let s = b.sign(0); format!("{:?}/{:?}/{}", s.state(), s.sign_type(), s.pages().len()) };
+            let sign = Sign::new(bus.clone(), Address(own), t);
+            // configure_if_needed is specified for prior states that are not ready-to-receive or record the same type
+            let (st0, ty0) = { let b = bus.borrow(); (b.sign(0).state(), b.sign(0).sign_type()) };
+            let ready = matches!(st0, State::ConfigReceived | State::ShowingPages | State::PageLoaded | State::PageShowInProgress | State::PageShown | State::PageLoadInProgress);
+            if w % 2 == 1 && (!ready || ty0 == Some(t)) {
+                sign.configure_if_needed().map_err(|e| format!("configure_if_needed failed from prior {}: {}", sig, e))?;
+                if bus.borrow().sign(0).sign_type() != Some(t) { return Err(format!("configure_if_needed from prior {} left type {:?}", sig, bus.borrow().sign(0).sign_type())); }
+                let mut pages = vec![];
+                for i in 0..n_pages { pages.push(sign.create_page(PageId(i as u8 + 1))); }
+                sign.send_pages(&pages).map_err(|e| format!("send_pages after configure_if_needed from prior {} failed: {}", sig, e))?;
+                if bus.borrow().sign(0).pages().len() != pages.len() { return Err("pages differ after configure_if_needed".into()); }
+                return Ok(sig);
+            }
+            sign.configure().map_err(|e| format!("configure failed from prior {}: {}", sig, e))?;
+            { let b = bus.borrow(); let s = b.sign(0);
+              if s.sign_type() != Some(t) || !s.pages().is_empty() || s.state() != State::ConfigReceived { return Err(format!("after configure: {:?} {:?} {} pages", s.state(), s.sign_type(), s.pages().len())); } }
+            let mut pages = vec![];
+            for i in 0..n_pages { let mut p = sign.create_page(PageId(i as u8 + 1)); let (pw, ph) = (p.width(), p.height());
+                for _ in 0..20 { p.set_pixel((rng_u32(i, w) % pw.max(1)).min(pw - 1), (rng_u32(i + 7, w) % ph.max(1)).min(ph - 1), true); } pages.push(p); }
+            let fs = sign.send_pages(&pages).map_err(|e| format!("send_pages failed: {}", e))?;
+            if fs != style { return Err(format!("flip style {:?} reported, sign is {:?}", fs, style)); }
+            { let b = bus.borrow(); let s = b.sign(0);
+              let want = if style == PageFlipStyle::Manual { State::PageLoaded } else { State::ShowingPages };
+              if s.state() != want { return Err(format!("state {:?} after send_pages", s.state())); }
+              if s.pages().len() != pages.len() || s.pages().iter().zip(pages.iter()).any(|(a, b)| a.as_bytes() != b.as_bytes()) { return Err("pages differ".into()); } }
+            sign.show_loaded_page().map_err(|e| format!("show failed: {}", e))?;
+            { let st = bus.borrow().sign(0).state(); let want = if style == PageFlipStyle::Manual { State::PageShown } else { State::ShowingPages }; if st != want { return Err(format!("state {:?} after show", st)); } }
+            sign.load_next_page().map_err(|e| format!("load_next failed: {}", e))?;
+            { let st = bus.borrow().sign(0).state(); let want = if style == PageFlipStyle::Manual { State::PageLoaded } else { State::ShowingPages }; if st != want { return Err(format!("state {:?} after load_next", st)); } }
+            sign.send_pages(&pages).map_err(|e| format!("repeated send_pages failed: {}", e))?;
+            sign.configure_if_needed().map_err(|e| format!("configure_if_needed failed: {}", e))?;
+            if bus.borrow().sign(0).sign_type() != Some(t) { return Err("configure_if_needed lost the type".into()); }
+            Ok(sig)
+        }));
+        match r {
+            Err(_) => return Some(Cex { domain: "e2e", input, expected: "no panic".into(), actual: "panic".into() }),
+            Ok(Err(m)) => return Some(Cex { domain: "e2e", input, expected: "C08 postconditions".into(), actual: m }),
+            Ok(Ok(sig)) => { seen.insert(sig); }
+        }
+    }
+    eprintln!("e2e: {} walks, {} distinct prior (state, type, pages) signatures", walks, seen.len());
+    None
+}
+fn rng_u32(a: usize, b: usize) -> u32 { ((a as u32).wrapping_mul(2654435761) ^ (b as u32).wrapping_mul(40503)).wrapping_add(12345) }
+
 fn main() {
     let args: Vec<String> = std::env::args().collect();
     let cmd = args.get(1).map(|s| s.as_str()).unwrap_or("");
@@ -412,6 +507,7 @@ fn main() {
             "page" => search_page(&mut rng),
             "message" => search_message(&mut rng),
             "signtype" => search_signtype(&mut rng),
+            "e2e" => search_e2e(&mut rng, 110000),
             _ => { eprintln!("unknown domain"); std::process::exit(2) }
         };
         match r { Some(c) => { report(&c); std::process::exit(1) } None => { println!("{{\"found\":false,\"domain\":\"{}\"}}", dom); } }
